@@ -92,8 +92,9 @@ def run_once(run, binp, scns, name):
     tmo = int(os.environ.get("VERIF_DRIVER_TIMEOUT", "600"))
     p = sh([binp, "-test.run", "TestStack", "-test.timeout", "%ds" % tmo], cwd=d, env=env, timeout=tmo + 30, check=False)
     if p.returncode != 0 or not os.path.exists(os.path.join(d, "hooks.txt")):
-        if "panic:" in (p.stdout or "") and "simplefix-go" in (p.stdout or ""):
-            raise LibraryPanic((p.stdout or "")[-3000:], {"kind": "stack", "scenarios": scns})
+        lc = library_crash(p.stdout or "")
+        if lc:
+            raise LibraryPanic(lc[0], lc[1], "whole-stack scenarios")
         raise Inconclusive("stack driver failed:\n" + (p.stdout or "")[-2500:])
     fails = json.load(open(os.path.join(d, "fails.json")))
     if fails:
@@ -302,8 +303,9 @@ def wire_once(run, binp, scns, name):
     p = sh([binp, "-test.run", "TestWireSess", "-test.timeout", "%ds" % tmo], cwd=d, env=env, timeout=tmo + 30, check=False)
     tr = os.path.join(d, "wiresess.ndjson")
     if p.returncode != 0 or not os.path.exists(tr):
-        if "panic:" in (p.stdout or "") and "simplefix-go" in (p.stdout or ""):
-            raise LibraryPanic((p.stdout or "")[-3000:], {"kind": "stack", "wire_scenarios": scns[:50]})
+        lc = library_crash(p.stdout or "")
+        if lc:
+            raise LibraryPanic(lc[0], lc[1], "session histories over TCP")
         raise Inconclusive("wire-session driver failed:\n" + (p.stdout or "")[-2500:])
     fails = json.load(open(os.path.join(d, "fails.json")))
     if fails:
@@ -376,10 +378,9 @@ def garbage_check(run, inputs):
     txt = p.stdout or ""
     res = os.path.join(d, "garbage.json")
     if p.returncode != 0 or not os.path.exists(res):
-        if "panic:" in txt and "simplefix-go" in txt:
-            import re
-            m = re.search(r"^panic: (.*)$", txt, re.M)
-            raise sc.LibraryPanic(m.group(1) if m else "panic", txt[m.start():m.start() + 3000] if m else txt[-3000:], "garbage on the inbound path")
+        lc = library_crash(txt)
+        if lc:
+            raise LibraryPanic(lc[0], lc[1], "garbage on the inbound path")
         raise Inconclusive("garbage driver failed:\n" + txt[-2500:])
     o = json.load(open(res))
     run.records += o["wire"] + o["direct"]
